@@ -25,6 +25,10 @@ def run(repo, chk, tier):
     try:
         check_kernels(repo, chk, tier)
         check_models(repo, chk, tier)
+        # the barrier factor of a decay vertex with each of its documented options (shared with C04)
+        from .c04 import barrier_options
+
+        barrier_options(repo, chk)
     except AnalysisError as e:
         if not chk.new_violations():
             raise
